@@ -216,6 +216,19 @@ func engEnc(e *Env) {
 						fb, err := verifhook.DecodeBlock(raw)
 						if err == nil && fb.FieldName != "" {
 							byField[fb.FieldName] = fb.Encryption != ""
+							// C04 on encrypted blocks: height = 1 + max height of the parents
+							want := uint64(1)
+							for _, h := range fb.Heads {
+								if praw, ok := w.rawBlock(ctx, mustCid(h)); ok {
+									if pb, err := verifhook.DecodeBlock(praw); err == nil && pb.Priority+1 > want {
+										want = pb.Priority + 1
+									}
+								}
+							}
+							e.Res.Evaluations++
+							if fb.Priority != want {
+								e.violate("dag-height", fmt.Sprintf("field block %s (%s, encrypted=%v) has height %d, its parents give %d", l[1], fb.FieldName, fb.Encryption != "", fb.Priority, want), replay)
+							}
 						}
 					}
 					for _, f := range fields {
